@@ -39,6 +39,7 @@ package geo
 //@ func RectFromPointDistance
 //@   props C18
 //@   mode bv
+//@   floats abstract
 //@   ensures iff(result4 == nil, !isNaN(lon) && -180 <= lon && lon <= 180 && !isNaN(lat) && -90 <= lat && lat <= 90)
 //@   ensures implies(result4 == nil && poleFree(lat, dist), sameF(result1, deg(rad(lat) + capRadius(dist))) && sameF(result3, deg(rad(lat) - capRadius(dist))))
 //@   ensures implies(result4 == nil && poleFree(lat, dist) && rad(lon) - capHalfWidth(lat, dist) < rad(-180.0), sameF(result0, deg(rad(lon) - capHalfWidth(lat, dist) + 2*math.Pi)))
